@@ -42,12 +42,16 @@ pub fn model_tokens(c: &Case) -> (Vec<(RTok, u64)>, crate::model::reftok::Covera
 }
 
 pub fn impl_tokens(c: &Case, cuts: &[usize]) -> Result<Vec<(RTok, u64)>, String> {
+    // PLAINTEXT is entered through Tokenizer::set_plaintext_state() for inputs of even length, through
+    // TokenizerOpts::initial_state for the others (both are public ways to start there)
+    let via_setter = c.start == StartState::Plaintext && c.input.len() % 2 == 0;
     let opts = HtmlTokOpts {
         exact_errors: false,
         discard_bom: c.discard_bom,
         profile: false,
-        initial_state: Some(real_state(c.start)),
+        initial_state: if via_setter { None } else { Some(real_state(c.start)) },
         last_start_tag: c.last_tag.clone(),
+        set_plaintext_first: via_setter,
     };
     let chunks = split_at_chars(&c.input, cuts);
     catch(|| run_html_tokenizer(&chunks, &opts, &c.policy, false)).map(|r| coalesce(&r.raw, false))
